@@ -5,21 +5,27 @@ EXTENDS Wire, WireClasses
 McTable == ClassTable
 
 \* kept classes after which the exhaustive enumeration goes on (one per handler that changes node or peer state)
-McCarriers == {"HsGood", "Phs_Good", "FrHeartbeat", "GetStatus_Good", "Status_Higher", "Hash_Good", "Txs_Good", "GetBlocks_Good",
+McCarriers == {"HsGood", "OhsGood", "Phs_Good", "FrHeartbeat", "GetStatus_Good", "Status_Higher", "Hash_Good", "Txs_Good", "GetBlocks_Good",
                "Blocks_Good", "Confirm_Good", "GetConfirms_Good", "Confirms_Good", "DiscRes_Good",
                "Blocks_ChildUnsigned", "Blocks_DeputyPlausible", "Confirm_Known"}
 \* the quick tier continues after fewer of them
-McCarriersQ == {"HsGood", "Phs_Good", "GetStatus_Good", "Txs_Good", "Blocks_Good", "Confirm_Good", "Blocks_DeputyPlausible"}
+McCarriersQ == {"HsGood", "OhsGood", "Phs_Good", "GetStatus_Good", "Txs_Good", "Blocks_Good", "Confirm_Good", "Blocks_DeputyPlausible"}
 \* in simulation every kept class carries on
 McAllKept == {t[1] : t \in {u \in McTable : u[3] \in {"keep", "adv"}}} \cup {"Blocks_ChildUnsigned", "Blocks_DeputyPlausible", "Confirm_Known", "Blocks_OrphanMax", "Confirms_Unknown"}
 McHeavy == {"Confirm_Flood", "Blocks_Flood", "GetBlocks_Huge", "GetBlocksCL_Huge", "FrMaxLenGarbage", "FrMaxLenTrunc", "Confirms_HugePack",
-            "DiscRes_Many", "Txs_Many", "HsHugeLenTrunc", "HsLen64MTrunc"}
-McProbe == [p \in {"PreHs", "ProtoHs", "Est"} |-> IF p = "PreHs" THEN "HsGood" ELSE IF p = "ProtoHs" THEN "Phs_Good" ELSE "GetStatus_Good"]
-McMaxIn1 == [p \in {"PreHs", "ProtoHs", "Est"} |-> 1]
-McMaxIn2 == [p \in {"PreHs", "ProtoHs", "Est"} |-> IF p = "Est" THEN 2 ELSE 1]
-McMaxIn2p == [p \in {"PreHs", "ProtoHs", "Est"} |-> IF p = "PreHs" THEN 1 ELSE 2]
-McMaxIn3 == [p \in {"PreHs", "ProtoHs", "Est"} |-> IF p = "Est" THEN 3 ELSE IF p = "ProtoHs" THEN 2 ELSE 1]
-McMaxIn4 == [p \in {"PreHs", "ProtoHs", "Est"} |-> IF p = "Est" THEN 4 ELSE IF p = "ProtoHs" THEN 2 ELSE 1]
+            "DiscRes_Many", "Txs_Many", "HsHugeLenTrunc", "HsLen64MTrunc", "DiscRes_HugeString"}
+Phases == {"PreHs", "OutHs", "ProtoHs", "Est"}
+McProbe == [p \in Phases |-> CASE p = "PreHs" -> "HsGood" [] p = "OutHs" -> "OhsGood" [] p = "ProtoHs" -> "Phs_Good" [] OTHER -> "GetStatus_Good"]
+\* [direction |-> [phase |-> inputs]]; one handshake packet per connection in either direction
+Mx(ph, es) == [p \in Phases |-> CASE p = "ProtoHs" -> ph [] p = "Est" -> es [] OTHER -> 1]
+McMaxIn1 == [d \in {"in", "out"} |-> Mx(1, 1)]
+McMaxIn2 == [d \in {"in", "out"} |-> IF d = "in" THEN Mx(1, 2) ELSE Mx(1, 1)]     \* quick: the dialed connection is followed one input deep
+McMaxIn2p == [d \in {"in", "out"} |-> Mx(2, 1)]
+McMaxIn3 == [d \in {"in", "out"} |-> IF d = "in" THEN Mx(2, 3) ELSE Mx(2, 2)]
+McMaxIn4 == [d \in {"in", "out"} |-> Mx(2, 4)]
+BothDirs == {"in", "out"}
+InOnly == {"in"}
+OutOnly == {"out"}
 NoDev == {}
 AllDev == {t[6] : t \in McTable} \ {""}
 DevOnly(d) == {d}
@@ -27,5 +33,6 @@ McDev1 == {"Dev_FrameLenNotBlockMultiple"}
 McDev2 == {"Dev_ConfirmCacheSelfDeadlock"}
 McDev3 == {"Dev_HandshakeLenLimit1GiB"}
 McDev4 == {"Dev_GetBlocksRangeUnbounded"}
-UniqueRows == \A c \in Classes : \A ph \in {"PreHs", "ProtoHs", "Est"} : Cardinality(Rows(c, ph)) <= 1
+McDev5 == {"Dev_EciesShortCiphertextPanics"}
+UniqueRows == \A c \in Classes : \A ph \in Phases : Cardinality(Rows(c, ph)) <= 1
 ====
